@@ -2,7 +2,8 @@
    Rows are positions 0..n-1 of the source; a part / group is a list of positions; its table is
    take_cols positions source.  key_eq is Python == on cells with NaN equal to NaN. *)
 From Coq Require Import ZArith NArith List Bool String Permutation Sorting.Sorted.
-From DM Require Import Base.PyVal Spec.Nf Spec.Table Spec.SplitGroup Proofs.SplitGroupFacts.
+From DM Require Import Base.PyVal Spec.Nf Spec.Table Spec.SplitGroup Gen.KSplitGroup Model.SplitGroup
+  Proofs.SplitGroupFacts Proofs.SplitGroupRefine.
 Import ListNotations.
 
 (* the parts of split(col) are pairwise disjoint and together hold every row exactly once *)
@@ -37,6 +38,12 @@ Theorem C14_unique_listing :
   forall cells : list val, Permutation (distinct key_eq cells) (unique cells).
 Proof. exact unique_perm. Qed.
 Print Assumptions C14_unique_listing.
+
+Theorem C14_unique_sorted :
+  forall cells : list val,
+    LocallySorted (fun a b => unique_le (distinct key_eq cells) a b = true) (unique cells).
+Proof. exact unique_sorted. Qed.
+Print Assumptions C14_unique_sorted.
 
 (* split by several columns: one non-empty part per occurring combination, again a partition *)
 Theorem C14_split_multi :
@@ -124,6 +131,60 @@ Theorem C14_key_eq_equivalence :
 Proof. exact (conj key_eq_refl (conj key_eq_sym key_eq_trans)). Qed.
 Print Assumptions C14_key_eq_equivalence.
 
+(* ---------- the code (L1 model on the kernels regenerated from operations.py / _basecolumn.py / _numericcolumn.py)
+   computes the L0 parts.  wf_dm d: distinct row ids, every column as long as the id list, FloatColumn/IntColumn
+   cells are numbers, MixedColumn cells are not NaN.  m_take ps d: the rows at positions ps, as a DataMatrix. *)
+
+(* col == v (the _compare route, _compare_nan / _compare_value of the column type) selects exactly the rows equal to v *)
+Theorem C14_model_compare_selects_equal_rows :
+  forall (k : kind) (g : nat -> N) (cs : list val) (v : val) (ps : list nat),
+    (match k with KMixed => True | _ => forall p, In p ps -> is_num (cell cs p) = true end) ->
+    m_compare_eq k (map g ps) (take_cells ps cs) v = map g (rows_with key_eq (cell cs) v ps).
+Proof. exact m_compare_eq_spec. Qed.
+Print Assumptions C14_model_compare_selects_equal_rows.
+
+(* _selectrowid / _getrowidkey: selecting by row id takes the positions *)
+Theorem C14_model_select_by_rowid :
+  forall (d : mdm) (ps qs : list nat),
+    NoDup (m_rid d) -> in_range d ps -> incl qs ps ->
+    m_selectrowid (m_take ps d) (map (rid_at d) qs) = m_take qs d.
+Proof. exact m_selectrowid_take. Qed.
+Print Assumptions C14_model_select_by_rowid.
+
+Theorem C14_model_unique :
+  forall (k : kind) (cells : list val), cells_ok k cells -> m_unique k cells = unique cells.
+Proof. exact m_unique_spec. Qed.
+Print Assumptions C14_model_unique.
+
+(* split(col1, ..., colk): the tuples yielded are the L0 parts, in L0 order, for every table and row-id layout *)
+Theorem C14_model_split_refines :
+  forall (d : mdm) (first : string) (rest : list string) (kcols : list (list val)),
+    wf_dm d ->
+    map (fun n => match find_col n (m_cols d) with Some kc => Some (snd kc) | None => None end) (first :: rest)
+      = map Some kcols ->
+    m_split d first rest [] =
+      SPairs (map (fun x => (fst x, m_take (snd x) d)) (splitm kcols (seq 0 (List.length (m_rid d))))).
+Proof. exact m_split_cols_refines. Qed.
+Print Assumptions C14_model_split_refines.
+
+(* split(col, v1, ..., vk): bare parts for the given values in the given order *)
+Theorem C14_model_split_values_refines :
+  forall (d : mdm) (kname : string) (k : kind) (cs : list val) (x : val) (vs : list val),
+    wf_dm d -> find_col kname (m_cols d) = Some (k, cs) ->
+    m_split d kname [] (x :: vs) =
+      SBare (map (fun qs => m_take qs d) (splitv cs (x :: vs) (seq 0 (List.length (m_rid d))))).
+Proof. exact m_splitv_refines. Qed.
+Print Assumptions C14_model_split_values_refines.
+
+(* group: the dict key built by the code (NaN -> text nan, tuple ==) identifies exactly the equal combinations,
+   for by-values other than the literal text nan (which no column stores: C05) *)
+Theorem C14_group_key_faithful :
+  forall a b : list val,
+    Forall not_nan_text a -> Forall not_nan_text b ->
+    tuple_eq (map m_keycell a) (map m_keycell b) = keys_eq a b.
+Proof. exact group_key_faithful. Qed.
+Print Assumptions C14_group_key_faithful.
+
 (* non-vacuity: keys whose concatenations / sums coincide stay apart; NaN keys form one group *)
 Open Scope string_scope.
 Example C14_example_text_keys :
@@ -140,3 +201,22 @@ Example C14_example_series :
   series_of [VInt 5; VInt 6; VInt 7] [[0; 2]; [1]]%nat
   = [[FFin false 5 0; FFin false 7 0]; [FFin false 3 1; FNan]].
 Proof. vm_compute. reflexivity. Qed.
+
+(* the premises of the refinement theorems are satisfiable: a table with reordered, non-contiguous row ids *)
+Definition ex_dm : mdm :=
+  {| m_rid := [7; 2; 9]%N;
+     m_cols := [("k", KMixed, [VStr "a"; VStr "ab"; VStr "a"]); ("uid", KInt, [VInt 10; VInt 11; VInt 12])] |}.
+Example C14_example_model :
+  m_split ex_dm "k" [] [] =
+    SPairs [([VStr "a"], {| m_rid := [7; 9]%N;
+                            m_cols := [("k", KMixed, [VStr "a"; VStr "a"]); ("uid", KInt, [VInt 10; VInt 12])] |});
+            ([VStr "ab"], {| m_rid := [2]%N;
+                             m_cols := [("k", KMixed, [VStr "ab"]); ("uid", KInt, [VInt 11])] |})].
+Proof. vm_compute. reflexivity. Qed.
+Example C14_example_wf : wf_dm ex_dm.
+Proof.
+  split.
+  - repeat constructor; simpl; intuition discriminate.
+  - intros n k cs [H|[H|[]]]; inversion H; subst; split; auto; simpl; intros c Hc;
+      repeat (destruct Hc as [<-|Hc]; [reflexivity|]); contradiction.
+Qed.
